@@ -150,7 +150,7 @@ func init() {
 
 func checkC19(c *Ctx) {
 	r := c.Rng
-	c.Ev.Coverage.Rule = "Deserialize under recover and a deadline, then every read method on each returned result; blobs whose declared section sizes exceed 4 MiB are skipped (the property's 'small enough to allocate'). Streams: structure-aware mutation of valid blobs in all four modes (the framing is parsed, then tag bytes — each position x the 15 meaningful tags and others —, value words (0, +-1, -off, > len, random), declared sizes and block types are changed inside the sections and the blob is re-framed uncompressed); every size varint of the frame (total, tape size, declared and block size of each section) replaced by boundary values up to 2^64-1 and by an overlong varint; exhaustive tag strings up to length 4 (5 thorough) over the tag alphabet with tape sizes 0..6 and zero/one/max value words; truncation at every length; byte mutations and splices of compressed blobs; random bytes. Uncompressed blobs are also run through the Coq model of the framing and reconstruction (same verdict, same tape; never Crash). non-trivial = blob that passes the framing; distinct = by blob bytes"
+	c.Ev.Coverage.Rule = "Deserialize under recover and a deadline, then every read method on each returned result; blobs whose declared section sizes exceed 4 MiB are skipped (the property's 'small enough to allocate'). Streams: structure-aware mutation of valid blobs in all four modes (the framing is parsed, then tag bytes — each position x the 15 meaningful tags and others —, value words (0, +-1, -off, > len, random), declared sizes and block types are changed inside the sections and the blob is re-framed uncompressed); an open tag (r/{/[) put into each one-word value slot pointing at every position up to just past itself; every size varint of the frame (total, tape size, declared and block size of each section) replaced by boundary values up to 2^64-1 and by an overlong varint; exhaustive tag strings up to length 4 (5 thorough) over the tag alphabet with tape sizes 0..6 and zero/one/max value words; truncation at every length; byte mutations and splices of compressed blobs; random bytes. Uncompressed blobs are also run through the Coq model of the framing and reconstruction (same verdict, same tape; never Crash). non-trivial = blob that passes the framing; distinct = by blob bytes"
 	var reqs []string
 	var pends []func(string)
 	// seeds
@@ -211,7 +211,7 @@ func checkC19(c *Ctx) {
 			case 1: // value word mutation
 				if len(vals) >= 8 {
 					p := r.Intn(len(vals)/8) * 8
-					choices := []uint64{0, 1, ^uint64(0), ^uint64(0) - 1, uint64(len(tags)), ts, ts + 1, uint64(-int64(p / 8)), 1 << 55, 1 << 56, 1 << 63, r.U64(),
+					choices := []uint64{0, 1, uint64(r.Intn(len(tags) + 2)), uint64(r.Intn(len(tags) + 2)), ^uint64(0), ^uint64(0) - 1, uint64(len(tags)), ts, ts + 1, uint64(-int64(p / 8)), 1 << 55, 1 << 56, 1 << 63, r.U64(),
 						uint64(tagAlphabet[r.Intn(len(tagAlphabet))])<<56 | uint64(r.Intn(4)), uint64('N')<<56, uint64('N')<<56 | 1}
 					binary.LittleEndian.PutUint64(vals[p:], choices[r.Intn(len(choices))])
 				}
@@ -242,6 +242,37 @@ func checkC19(c *Ctx) {
 				}
 			}
 			c.tryBlob("structured", rebuild(ts, tags, vals, sd.msg), true, &reqs, &pends)
+		}
+		// an open tag (root / object / array start) in a value slot pointing at every tape position
+		// up to just past itself — backwards onto its own key, onto itself, onto an enclosing
+		// start (the blob stores the distance, so backwards = a "negative" value word)
+		if len(sd.tags) <= 48 && si < 60 {
+			vi, tp := 0, 0 // index of the tag's first value word; its tape position
+			for p, t := range sd.tags {
+				nv, nw := 0, 1
+				switch t {
+				case '"', 'e':
+					nv, nw = 2, 2
+				case 'l', 'u', 'd':
+					nv, nw = 1, 2
+				case '{', '[', 'r':
+					nv = 1
+				}
+				if nv == 1 && nw == 2 && p > 0 && 8*(vi+1) <= len(sd.vals) {
+					// a number (two tape words, one value word) becomes the open tag followed by a
+					// null, so that every other offset of the blob stays consistent
+					for _, nt := range []byte{'r', '{', '['} {
+						for tgt := 0; tgt <= tp+2; tgt++ {
+							tags := append(append(append([]byte{}, sd.tags[:p]...), nt, 'n'), sd.tags[p+1:]...)
+							vals := append([]byte{}, sd.vals...)
+							binary.LittleEndian.PutUint64(vals[8*vi:], uint64(int64(tgt)-int64(tp)))
+							c.tryBlob("backward-open-tag", rebuild(sd.fr.Ts, tags, vals, sd.msg), true, &reqs, &pends)
+						}
+					}
+				}
+				vi += nv
+				tp += nw
+			}
 		}
 		// framing: every size varint of the frame (total, tape size, declared and block sizes of the four
 		// sections) replaced by boundary values, including 10-byte varints >= 2^63 and an overlong varint
@@ -372,6 +403,11 @@ func checkC19(c *Ctx) {
 		if b, err := hex.DecodeString(hx); err == nil {
 			inject(b)
 		}
+	}
+	// F19: a member whose value slot holds a root tag pointing back at the member's key
+	// (Object.Parse / Map / ForEach used to step back onto the key for ever)
+	if b, err := hex.DecodeString("035f0c00000203006162090a00727b227200226c7d724849000c000000000000000a0000000000000000000000000000000100000000000000feffffffffffffff010000000000000001000000000000000300000000000000f5ffffffffffffff"); err == nil {
+		c.tryBlob("regress-F19", b, true, &reqs, &pends)
 	}
 	// the family around them: a string entry (as key and as value) whose offset / length
 	// words are tag-shaped, for every pair of tags
